@@ -46,6 +46,42 @@ def exprset(table):
     return sorted(ids)
 
 
+def pre73(check, wp, tier):
+    table, behs = syntax.generate(check, "pre73", num=150 if tier == "quick" else 1500, seed=core.seed() + 72, depth=2)
+    old = {v["id"] for v in table["variants"] if v["fam"] == "pre73"}
+    ex = progs.expand_all(table, behs, core.seed(), ["none", "random"])
+    behs, ex = progs.drop_skipped(behs, ex)
+    tasks = []
+    for b, e in zip(behs, ex):
+        if not (old & set(e["used"])) or ({"heredoc/empty", "nowdoc/empty"} & set(e["used"])):
+            continue
+        for var in e["variants"]:
+            for ver in ("7.2", "7.0"):
+                tasks.append({"op": "cmp_tree", "src": var["src"], "ver": ver, "exp": var["exp"], "_u": e["used"], "_accept": True})
+            for ver in ("7.3", "7.4", "nil"):
+                tasks.append({"op": "analyze", "src": var["src"], "ver": ver, "_u": e["used"], "_accept": False})
+    out = []
+    for t, r in zip(tasks, wp.run([{k: v for k, v in t.items() if not k.startswith("_")} for t in tasks])):
+        check.count()
+        check.distinct(("pre73", t["src"], t["ver"]))
+        if r.get("panic") or r.get("hang") or r.get("crash"):
+            continue
+        if t["_accept"]:
+            if r.get("nerr", 1) > 0 or not r.get("root"):
+                out.append(({"class": "label-line-body-rejected-before-7.3", "ver": t["ver"]}, {"src": t["src"], "ver": t["ver"], "errors": r.get("errs")}))
+            else:
+                for f in r.get("fails") or []:
+                    if f["c"] in progs.STRUCT:
+                        out.append(({"class": f["c"], "kind": f.get("kind"), "slot": progs.slot_of(f["path"]), "family": "pre73", "got": None},
+                                    {"src": t["src"], "ver": t["ver"], "fail": f, "variants": t["_u"]}))
+        elif r.get("nerr", 0) == 0:
+            out.append(({"class": "label-line-not-reported-from-7.3", "ver": t["ver"]}, {"src": t["src"], "ver": t["ver"]}))
+    check.cov["pre73_runs"] = check.cov.get("pre73_runs", 0) + len(tasks)
+    if not tasks:
+        raise core.InfraError("no pre-7.3 heredoc program was generated")
+    return out
+
+
 def classify(check, results, table):
     for m, t, r in results:
         check.count()
@@ -218,6 +254,10 @@ def run(tier):
         elif r.get("nerr", 0) == 0:
             check.violation({"class": "flexible-heredoc-accepted-before-7.3", "ver": t["ver"]}, {"src": t["src"], "ver": t["ver"]})
     check.cov["flexible_heredoc_runs"] = len(tasks)
+    # the other side of the 7.3 change: a body line that begins with the label and goes on is body text before 7.3 (accepted with
+    # the prescribed tree under 7.0 - 7.2) and ends the heredoc from 7.3 on (reported under 7.3, 7.4 and with no version given)
+    for sig, rep in pre73(check, wp, tier):
+        check.violation(sig, rep)
     # token ids prescribed by Lexer.tla
     lc = lexgen.cases(check, tier, rng)
     res = wp.run([{"op": "lex", "src": c["src"].decode("latin-1"), "ver": "7.4" if c["flex"] else "7.2"} for c in lc])
